@@ -89,6 +89,56 @@ def readback_dev(obj, nfft, sampling):
     return max(dev, abs(obj.df - sampling / float(nfft)) / (sampling / float(nfft)))
 
 
+def coexistence(names, rng, n=32, cplx=False):
+    """Objects that are alive at the same time must not influence each other (class-level attributes, shared helper
+    objects, module-level caches keyed too coarsely).  For every name two objects with different data, NFFT and
+    sampling are BUILT first; only then are they evaluated, in reverse order; each one is finally compared with a
+    twin built and evaluated in isolation afterwards.  -> list of dict(cls, psd_dev, axis_dev, par_dev, raised)."""
+    specs = []
+    for i, name in enumerate(names):
+        for j, (nfft, samp) in enumerate(((n, 1.0), (2 * n + 1, 8.0))):
+            x = signal(rng, n, cplx, ['tones', 'noise'][j])
+            over = {'order': 4 - j, 'P': 3 - j, 'Q': 3 - j, 'maQ': 3 - j, 'IP': 8 - 2 * j}
+            specs.append((name, x, nfft, samp, over))
+    objs = []
+    for name, x, nfft, samp, over in specs:
+        try:
+            objs.append(build(name, x.copy(), nfft, samp, bool(len(objs) % 2), **over))
+        except Exception as e:
+            objs.append(e)
+    firsts = []
+    for (name, x, nfft, samp, over), obj in reversed(list(zip(specs, objs))):
+        try:
+            firsts.append((outputs(name, obj), np.array(obj.frequencies(), dtype=float), float(obj.df)))
+        except Exception as e:
+            firsts.append(e)
+    firsts.reverse()
+    res = []
+    for k, ((name, x, nfft, samp, over), obj, first) in enumerate(zip(specs, objs, firsts)):
+        ev = {'cls': name, 'raised': isinstance(obj, Exception) or isinstance(first, Exception), 'psd_dev': 0.0, 'axis_dev': 0.0, 'par_dev': 0.0}
+        if not ev['raised']:
+            try:
+                twin = build(name, x.copy(), nfft, samp, bool(k % 2), **over)
+                ot = outputs(name, twin)
+                o1, f1, df1 = first
+                # ... and the object read AGAIN now, after everybody else has been computed
+                o2 = outputs(name, obj)
+                f2 = np.array(obj.frequencies(), dtype=float)
+                ft = np.array(twin.frequencies(), dtype=float)
+                ev['psd_dev'] = max(rel_dev(o1['psd'], ot['psd']), rel_dev(o2['psd'], ot['psd']))
+                ev['axis_dev'] = max(rel_dev(f1, ft), rel_dev(f2, ft), abs(df1 - twin.df) / twin.df, abs(obj.df - twin.df) / twin.df)
+                pd = 0.0
+                for key in ot:
+                    if key != 'psd':
+                        for o in (o1, o2):
+                            pd = max(pd, rel_dev(o[key], ot[key]) if key in o else float('inf'))
+                ev['par_dev'] = pd
+            except Exception:
+                ev['raised'] = True
+        res.append(ev)
+    return res
+
+
 FUNCTIONS = ['speriodogram', 'CORRELOGRAMPSD', 'CORRELATION', 'xcorr', 'arburg', 'aryule', 'arcovar', 'modcovar',
              'arcovar_marple', 'modcovar_marple', 'arma_estimate', 'ma', 'minvar', 'music', 'ev', 'pmtm-unity',
              'pmtm-eigen', 'pmtm-adapt']
